@@ -1,6 +1,11 @@
 package main
 
-import goast "go/ast"
+import (
+	"fmt"
+	goast "go/ast"
+	"reflect"
+	"sort"
+)
 
 func init() { generators = append(generators, genResolver) }
 
@@ -71,5 +76,112 @@ func genResolver() {
 		problem("repo.go: no call site of bestPackage / sortPackages / comparePackages found")
 	}
 	l.defStrList("comparatorCompareArgs", compareArgs)
+	// disqualifyDifference, every statement (depth, text) in source order — the model's availability test is
+	// (name, version) membership per architecture index and nothing else of a package record — and the fields /
+	// methods of a package record (selector chains rooted at a range variable) it and newPkgResolver read
+	if fd != nil {
+		l.defStrList("dqStmts", flattenStmts(f, fd.Body.List, 0))
+		l.defStrList("dqPkgReads", rangeVarReads(f, fd))
+	} else {
+		l.defStrList("dqStmts", nil)
+		l.defStrList("dqPkgReads", nil)
+	}
+	if nr := f.fn("newPkgResolver"); nr != nil {
+		l.defStrList("newPkgResolverReads", rangeVarReads(f, nr))
+	} else {
+		problem("repo.go: newPkgResolver not found")
+		l.defStrList("newPkgResolverReads", nil)
+	}
 	l.write()
+}
+
+// flattenStmts: the statements of a body in source order, "<depth> <text>"; for / range / if / switch contribute
+// their header and then their bodies one level deeper ("else" on its own line)
+func flattenStmts(f *File, list []goast.Stmt, depth int) []string {
+	var out []string
+	line := func(format string, a ...any) {
+		out = append(out, fmt.Sprintf("%d ", depth)+fmt.Sprintf(format, a...))
+	}
+	opt := func(n goast.Node, suffix string) string {
+		if n == nil || reflect.ValueOf(n).IsNil() {
+			return ""
+		}
+		return f.src(n) + suffix
+	}
+	for _, st := range list {
+		switch x := st.(type) {
+		case *goast.RangeStmt:
+			h := "for "
+			if x.Key != nil {
+				h += f.src(x.Key)
+				if x.Value != nil {
+					h += ", " + f.src(x.Value)
+				}
+				h += " " + x.Tok.String() + " "
+			}
+			line("%srange %s", h, f.src(x.X))
+			out = append(out, flattenStmts(f, x.Body.List, depth+1)...)
+		case *goast.ForStmt:
+			line("for %s; %s; %s", opt(x.Init, ""), opt(x.Cond, ""), opt(x.Post, ""))
+			out = append(out, flattenStmts(f, x.Body.List, depth+1)...)
+		case *goast.IfStmt:
+			line("if %s%s", opt(x.Init, "; "), f.src(x.Cond))
+			out = append(out, flattenStmts(f, x.Body.List, depth+1)...)
+			if x.Else != nil {
+				line("else")
+				if b, ok := x.Else.(*goast.BlockStmt); ok {
+					out = append(out, flattenStmts(f, b.List, depth+1)...)
+				} else {
+					out = append(out, flattenStmts(f, []goast.Stmt{x.Else}, depth+1)...)
+				}
+			}
+		case *goast.BlockStmt:
+			out = append(out, flattenStmts(f, x.List, depth+1)...)
+		default:
+			line("%s", f.src(st))
+		}
+	}
+	return out
+}
+
+// rangeVarReads: the selector chains rooted at a key / value variable of a range statement of fd (what the function
+// reads of the things it iterates over), sorted, without repetitions
+func rangeVarReads(f *File, fd *goast.FuncDecl) []string {
+	vars := map[string]bool{}
+	goast.Inspect(fd.Body, func(n goast.Node) bool {
+		if rs, ok := n.(*goast.RangeStmt); ok {
+			for _, e := range []goast.Expr{rs.Key, rs.Value} {
+				if id, ok := e.(*goast.Ident); ok && id.Name != "_" {
+					vars[id.Name] = true
+				}
+			}
+		}
+		return true
+	})
+	seen := map[string]bool{}
+	goast.Inspect(fd.Body, func(n goast.Node) bool {
+		sel, ok := n.(*goast.SelectorExpr)
+		if !ok {
+			return true
+		}
+		var root goast.Expr = sel
+		for {
+			if s2, ok := root.(*goast.SelectorExpr); ok {
+				root = s2.X
+				continue
+			}
+			break
+		}
+		if id, ok := root.(*goast.Ident); ok && vars[id.Name] {
+			seen[f.src(sel)] = true
+			return false
+		}
+		return true
+	})
+	var out []string
+	for k := range seen {
+		out = append(out, k)
+	}
+	sort.Strings(out)
+	return out
 }
